@@ -35,10 +35,14 @@ Valid(t) == ValidF(t, UpOf(t))
 RECURSIVE Flatten(_)
 Flatten(ss) == IF ss = <<>> THEN <<>> ELSE Head(ss) \o Flatten(Tail(ss))
 
+\* the empty string is not a segment: offered to Join (or to New, which is Join from the top command) it is passed over
+NonEmpty(ss) == SelectSeq(ss, LAMBDA x : x # <<>>)
+
 RECURSIVE JoinText(_, _)
-\* the command with the (non-empty) segments ss appended
+\* the command with the segments ss appended
 JoinText(c, ss) ==
   IF ss = <<>> THEN c
+  ELSE IF Head(ss) = <<>> THEN JoinText(c, Tail(ss))
   ELSE JoinText((IF Len(c) > 1 THEN Append(c, SLASH) ELSE c) \o Head(ss), Tail(ss))
 
 \* ---- code-shaped ----
@@ -78,6 +82,7 @@ RunCovers(c, o) == LET m1 == CoversStep(CoversInit(c, o)) IN IF m1.phase = "done
 JoinInit(c, ss) == [op |-> "join", c |-> c, segs |-> ss, phase |-> "append", i |-> 1, buf |-> c, result |-> "none"]
 JoinStep(m) ==
   IF m.i > Len(m.segs) THEN [m EXCEPT !.phase = "done", !.result = "ok"]
+  ELSE IF m.segs[m.i] = <<>> THEN [m EXCEPT !.i = m.i + 1]
   ELSE [m EXCEPT !.buf = (IF Len(m.buf) > 1 THEN Append(m.buf, SLASH) ELSE m.buf) \o m.segs[m.i], !.i = m.i + 1]
 
 Step(m) == CASE m.op = "parse" -> ParseStep(m)
@@ -91,7 +96,7 @@ ValidCmds == {t \in SeqsUpTo(Chars, MaxCmd) : Valid(t)}
 
 Init == \/ \E t \in SeqsUpTo(Chars, MaxText) : m = ParseInit(t, UpOf(t))
         \/ \E c \in ValidCmds, o \in ValidCmds : m = CoversInit(c, o)
-        \/ \E c \in ValidCmds, ss \in SeqsUpTo(JoinSegs, 2) : m = JoinInit(c, ss)
+        \/ \E c \in ValidCmds, ss \in SeqsUpTo(JoinSegs, 3) : m = JoinInit(c, ss)
 
 Next == m.phase # "done" /\ m' = Step(m)
 Spec == Init /\ [][Next]_vars
@@ -109,7 +114,7 @@ NoTextualPrefixCover ==
 
 JoinAppends ==
   (Done /\ m.op = "join") => /\ Valid(m.buf)
-                             /\ Segments(m.buf) = Segments(m.c) \o m.segs
+                             /\ Segments(m.buf) = Segments(m.c) \o NonEmpty(m.segs)
                              /\ m.buf = JoinText(m.c, m.segs)
 
 \* order axioms over all valid commands up to MaxCmd (evaluated once, in the initial states)
